@@ -114,6 +114,18 @@ static const char* const REPLACEMENTS[] = {"nan", "inf", "-inf", "1e400", "1e-40
                                            "1e20", "1e50", "1e100", "1e150", "1e-20", "1e-50", "1e-100", "-1e100", "1e-200", // finite, far from any physical scale: three-digit exponents in the results
                                            "111111111111111111111111111111111111111111111111111111111111111111111111111111111111111111111111111111111111111111111111111111111111111111111111111111111111111111111111111111111111111111111111111111111111111111111111111111111111111111111111111111111111111111111111111111111111111111111111111111111111111111111111111111111111111111111111111111111111111111111111.5"};
 constexpr int N_REPL = sizeof(REPLACEMENTS) / sizeof(REPLACEMENTS[0]);
+/// block names of the SLHA 1/2 conventions and of the common spectrum generators (a reader extended to understand one
+/// more of them can only be exercised if the documents contain it)
+static const char* const BLOCK_NAMES[] = {
+   "MODSEL", "SMINPUTS", "MINPAR", "EXTPAR", "MASS", "NMIX", "UMIX", "VMIX", "STOPMIX", "SBOTMIX", "STAUMIX", "SMUMIX", "ALPHA", "HMIX", "GAUGE",
+   "AU", "AD", "AE", "YU", "YD", "YE", "MSOFT", "SPINFO", "DCINFO", "VCKMIN", "VCKM", "IMVCKM", "UPMNSIN", "UPMNS", "IMUPMNS",
+   "MSQ2", "MSU2", "MSD2", "MSL2", "MSE2", "TU", "TD", "TE", "USQMIX", "DSQMIX", "SELMIX", "SNUMIX", "QEXTPAR",
+   "IMNMIX", "IMUMIX", "IMVMIX", "IMAU", "IMAD", "IMAE", "IMHMIX", "IMMSOFT", "IMEXTPAR", "IMMINPAR", "IMMASS",
+   "GM2CalcConfig", "GM2CalcInput", "GM2CalcOutput", "GM2CalcTHDMDeltauInput", "GM2CalcTHDMDeltadInput", "GM2CalcTHDMDeltalInput",
+   "GM2CalcTHDMPiuInput", "GM2CalcTHDMPidInput", "GM2CalcTHDMPilInput", "FlexibleSUSY", "FlexibleSUSYOutput", "FlexibleSUSYInput", "LOWEN", "EFFHIGGSCOUPLINGS",
+   "NMSSMRUN", "NMHMIX", "NMAMIX", "NMNMIX", "RVLAMLLE", "THDMINPUTS", "MINPARTHDM", "HIGGSBOUNDSINPUTHIGGSCOUPLINGSBOSONS"};
+constexpr int N_BLOCK_NAMES = sizeof(BLOCK_NAMES) / sizeof(BLOCK_NAMES[0]);
+
 /// alphabet of the raw command lines (enumeration CMDLINE: every sequence of up to three atoms)
 static const char* const CMD_ATOMS[] = {
    "--help", "-h", "--version", "-v",
@@ -194,6 +206,23 @@ inline void apply_op(Scenario& s, const Corpus& corpus, const std::vector<std::s
       else { // keep header + last non-empty line
          size_t last = e; while (last > hdr_end && (d[last - 1] == '\n')) --last; size_t lb = d.rfind('\n', last ? last - 1 : 0); lb = (lb == std::string::npos || lb + 1 < hdr_end) ? hdr_end : lb + 1;
          if (lb > hdr_end) { d.erase(hdr_end, lb - hdr_end); damaged("block_reduced_to_last_entry"); }
+      }
+   } else if (op == "renameblock" || op == "cloneblock") {
+      // the K-th block gets the J-th name of BLOCK_NAMES (rename), or a copy of it under that name is appended (clone)
+      auto ls = line_starts(d);
+      std::vector<size_t> defs;
+      for (size_t i = 0; i < ls.size(); ++i) { auto tk = tokens_of(d, ls[i], line_end(d, ls[i])); if (tk.size() >= 2) { std::string f = d.substr(tk[0].first, tk[0].second - tk[0].first); for (auto& c : f) c = (char)std::tolower((unsigned char)c); if (f == "block") defs.push_back(i); } }
+      if (defs.empty()) return;
+      const size_t k = (size_t)(((num(1) % (long long)defs.size()) + (long long)defs.size()) % (long long)defs.size());
+      const char* nm = BLOCK_NAMES[((num(2) % N_BLOCK_NAMES) + N_BLOCK_NAMES) % N_BLOCK_NAMES];
+      const size_t b = ls[defs[k]], e = (k + 1 < defs.size()) ? ls[defs[k + 1]] : d.size();
+      auto tk = tokens_of(d, b, line_end(d, b));
+      if (op == "renameblock") { d.replace(tk[1].first, tk[1].second - tk[1].first, nm); damaged("block_renamed"); }
+      else {
+         std::string copy = d.substr(b, e - b); if (copy.empty() || copy.back() != '\n') copy += '\n';
+         copy.replace(tk[1].first - b, tk[1].second - tk[1].first, nm);
+         if (!d.empty() && d.back() != '\n') d += '\n';
+         if (d.size() + copy.size() <= 70000) { d += copy; damaged("block_cloned_under_other_name"); }
       }
    } else if (op == "manyscales") {
       // N blocks of the same name at N different scales appended (Q= selection code has to look at all of them)
@@ -467,7 +496,9 @@ inline std::vector<std::string> gen_plan(const Corpus& corpus, uint64_t seed, st
       }
    };
    auto struct_op = [&]() -> std::string {
-      switch (r.below(20)) {
+      switch (r.below(22)) {
+      case 20: return "renameblock " + std::to_string(r.below(30)) + " " + std::to_string(r.below(N_BLOCK_NAMES));
+      case 21: return "cloneblock " + std::to_string(r.below(30)) + " " + std::to_string(r.below(N_BLOCK_NAMES));
       case 16: return "dropblock " + std::to_string(r.below(30));
       case 17: return "emptyblock " + std::to_string(r.below(30));
       case 18: return "lastentryonly " + std::to_string(r.below(30));
